@@ -129,7 +129,7 @@ InitHist == [hb |-> [a \in Actor |-> <<>>], he |-> [a \in Actor |-> <<>>], cb |-
              stopAcc |-> [a \in Actor |-> FALSE], late |-> [a \in Actor |-> {}],
              oksend |-> [a \in Actor |-> {}], okcall |-> {}, errcall |-> {},
              ann |-> [a \in Actor |-> <<>>], ab |-> [a \in Actor |-> <<>>],
-             qry |-> {}, ctxr |-> {}, upr |-> {}, upfail |-> [a \in Actor |-> FALSE], ninst |-> 0]
+             qry |-> {}, ctxr |-> {}, upr |-> {}, abt |-> {}, upfail |-> [a \in Actor |-> FALSE], ninst |-> 0]
 
 InitReg == [ent |-> <<>>, lock |-> "free"]
 
@@ -449,12 +449,15 @@ DropLoop(ar, pc, res, why) ==
 AbortTimersOf(a) == [i \in DOMAIN tmr |-> IF tmr[i].a = a /\ tmr[i].st \notin {"ended"} THEN [tmr[i] EXCEPT !.st = "aborted", !.hold = NoHold] ELSE tmr[i]]
 
 HAbandon(H, a) == IF act[a].pc = "handling" THEN [H EXCEPT !.ab = [@ EXCEPT ![a] = Append(@, act[a].curp.m)]] ELSE H
-Fail(a, why) ==
+\* <<actor, message, start of the invocation, time of abandonment>>
+HTimedOut(H, a) == [H EXCEPT !.abt = @ \cup {<<a, act[a].curp.m, act[a].tdl - act[a].tmo, now>>}]
+FailH(a, why, H) ==
   /\ act' = [act EXCEPT ![a] = DropLoop(@, "failed", "err", why)]
   /\ rsp' = DropResp(rsp, QueuedResp(act[a]) \cup CurResp(act[a]))
   /\ tmr' = AbortTimersOf(a)
-  /\ hst' = HAbandon(hst, a)
+  /\ hst' = H
   /\ UNCHANGED <<hnd, cli, reg, now>>
+Fail(a, why) == FailH(a, why, HAbandon(hst, a))
 
 StartedBegin(a) ==
   /\ act[a].pc = "starting"
@@ -551,10 +554,10 @@ TimeoutReady(a) == act[a].pc = "handling" /\ act[a].tdl >= 0 /\ now >= act[a].td
 TimeoutFire(a) ==
   /\ TimeoutReady(a)
   /\ IF act[a].failto
-     THEN Fail(a, "timeout")
+     THEN FailH(a, "timeout", HTimedOut(HAbandon(hst, a), a))
      ELSE /\ act' = [act EXCEPT ![a] = [@ EXCEPT !.pc = "idle", !.curp = NoPayload, !.scr = <<>>, !.ip = 0, !.tdl = -1, !.sdl = -1]]
           /\ rsp' = DropResp(rsp, CurResp(act[a]))
-          /\ hst' = HAbandon(hst, a)
+          /\ hst' = HTimedOut(HAbandon(hst, a), a)
           /\ UNCHANGED <<hnd, cli, tmr, reg, now>>
 
 \* Restart payload (restart_strategy.rs:10-37)
@@ -649,7 +652,7 @@ TaskCanStepW(t, more) ==
   ELSE FALSE
 
 \* ---- run-to-block discipline of a cooperative executor
-IsYieldStep(a) == InScript(a) /\ ~ScriptDone(a) /\ CurEff(a).e = "yield" /\ ~TimeoutReady(a)
+IsYieldStep(a) == InScript(a) /\ ~ScriptDone(a) /\ CurEff(a).e = "yield"
 Pick(t)  == cur = None /\ cur' = t /\ yl' = FALSE /\ UNCHANGED sys
 RunLoop(a) == /\ cur = a /\ ~yl /\ LoopStep(a) /\ cur' = cur
               /\ yl' = (IsYieldStep(a) /\ act'[a].pc = act[a].pc /\ act'[a].ip = act[a].ip + 1)
